@@ -105,6 +105,9 @@ func genDiff(tier, replay string) int {
 		run.WriteFiles(dir, files)
 		b := run.Exec(run.Cmd{Argv: []string{other, "-q", "device", "code/router"}, Dir: dir, Env: run.BaseEnv(dir), Timeout: 120e9})
 		out[i] = res{mode, a.Stdout != b.Stdout || a.Exit != b.Exit}
+		if out[i].diff && os.Getenv("GENDIFF_V") != "" {
+			fmt.Printf("DIFF seed=%d mode=%s\n--- clean\n%s--- other\n%s\n", seed, mode, a.Stdout, b.Stdout)
+		}
 	})
 	count := map[string][2]int{}
 	for _, r := range out {
